@@ -35,7 +35,7 @@ ENGINES = ["A", "B"]
 TECHNIQUE = "deterministic simulation: virtual-clock histories (boundary instants) against a reference recovery model on both backends; seeded SQL-statement / source-line interleavings of the real recovery task bodies with owners that keep moving"
 LEVEL_TEXT = (
     "hist: seeded operation histories on both real orchestrators under the simulated clock, with clock advances placed exactly on, just "
-    "before and just after the pending limit and the heartbeat timeout; scans and full status read-outs are compared with a reference model "
+    "before and just after the pending limit and the heartbeat timeout; heartbeats reported by a parent go through the real BaseRunner._report_child_runner_heartbeats of a process-runner object (alive child, sometimes a dead sibling), with the service-check cadence randomised; scans and full status read-outs are compared with a reference model "
     "after every operation. race: the real recover_pending_invocations / recover_running_invocations bodies run in one simulated process while "
     "owner processes keep transitioning the same invocations; the schedule is seeded at SQL-statement (SQLite) or source-line (memory) "
     "granularity; afterwards everything that entered a recovery status must be REROUTED and queued, nothing fresh may have been recovered, "
@@ -53,7 +53,7 @@ ASSUMPTIONS = [
     "'PENDING for at least the limit' is age >= limit; 'heartbeat older than the timeout' is strictly older (as both backends implement and the config documents)",
     "'can then be completed by another runner' is bounded liveness with one healthy runner polling after the recovery run",
 ]
-REAL = ["core_tasks.recover_pending_invocations / recover_running_invocations", "Mem/SQLite recovery scans", "register_runner_heartbeats / active runner queries", "reroute_invocations", "brokers"]
+REAL = ["core_tasks.recover_pending_invocations / recover_running_invocations", "BaseRunner._report_child_runner_heartbeats / PersistentProcessRunner.get_active_child_runner_ids", "Mem/SQLite recovery scans", "register_runner_heartbeats / active runner queries", "reroute_invocations", "brokers"]
 STUBBED = ["clock", "thread scheduling", "uuid4"]
 PROBES = ["pending_scan_nonempty", "running_scan_nonempty", "boundary_instant", "never_heartbeated_owner", "parent_reported_heartbeat", "owner_moved_between_scan_and_transition", "recovery_run_raised", "fresh_reclaim_during_recovery", "concurrent_poll_claimed_recovered"]
 
